@@ -38,7 +38,13 @@ def _tables(conns, rng, count):
         yield t, act
 
 
+def _native_views():
+    """native meaning of the uninterpreted views of the contract file"""
+    C.GOT = lambda log, c: any(e[0] is c for e in log)
+
+
 def _setup(d, table, active, conns):
+    _native_views()
     d._subscriptions = {e: set(cs) for e, cs in table.items()}
     d._active_connections = set(active)
     d._connections = list(conns)
